@@ -188,6 +188,29 @@ def schema_gates(ctx, py, rule="CODEC-GATES"):
     ob = py.func("metadata", "StructCodec.order_by_index")
     so = ast.unparse(ob)
     ctx.ob(rule, "order_by_index", "sorted(" in so and "index" in so, m.loc(ob), "property order is a function of the index/name, not of dict insertion order")
+    # canonical order = (index, name) with the RAW name as tie-break: the same order json.dumps(sort_keys=True) gives the schema
+    # string, so that parse(repr(schema)) lays the struct out identically
+    keys = []
+    for c in ast.walk(ob):
+        if isinstance(c, ast.Call) and isinstance(c.func, ast.Name) and c.func.id == "sorted":
+            for kw in c.keywords:
+                if kw.arg == "key" and isinstance(kw.value, ast.Lambda):
+                    keys.append((ast.unparse(kw.value.body), kw.value.args.args[0].arg if kw.value.args.args else "", c))
+    name_keys = [k for k in keys if "index" not in k[0]]
+    okn = len(name_keys) == 1 and name_keys[0][0] == "%s[0]" % name_keys[0][1]
+    ctx.ob(rule, "order_by_index|name-key", okn, m.loc(name_keys[0][2]) if name_keys else m.loc(ob),
+           "ties between properties are broken by the raw property name" if okn else
+           "the name tie-break sorts by `%s`, not by the raw name: two schemas that differ in dict order or after a repr round trip "
+           "lay the struct out differently" % (name_keys[0][0] if name_keys else "?"))
+    # null-terminated strings: the field is decoded first, then cut at the first NUL CHARACTER (a zero BYTE can be half of a
+    # utf-16 / utf-32 code unit)
+    sd = py.func("metadata", "StructCodec.make_string_decode")
+    bnul = [c for c in ast.walk(sd) if isinstance(c, ast.Constant) and isinstance(c.value, bytes) and b"\x00" in c.value]
+    dec = [c for c in ast.walk(sd) if isinstance(c, ast.Call) and isinstance(c.func, ast.Attribute) and c.func.attr == "decode"]
+    okd = not bnul and bool(dec) and all(isinstance(c.func.value, ast.Subscript) and "struct.unpack" in ast.unparse(c.func.value) for c in dec)
+    ctx.ob(rule, "string_decode|decode-then-cut", okd, m.loc(bnul[0] if bnul else sd),
+           "the unpacked field is decoded as a whole and cut at the NUL character afterwards" if okd else
+           "the raw bytes are cut at a zero byte before decoding: multi-byte encodings are truncated")
 
 
 def codec_defaults(ctx, py, rule="CODEC-DEFAULTS"):
